@@ -122,6 +122,9 @@ fn corpus() -> Vec<Value> {
                      Value::from(0), Value::from(255), Value::from(256), Value::from(1u64 << 63), Value::from(i64::MIN), Value::from(i64::MAX), Value::from(u32::MAX), Value::from(1u64 << 31), Value::from(i32::MIN), Value::from(65535), Value::from(65536), Value::from(-32769), Value::from(128), Value::from(-129), Value::from(0.0), Value::from(-0.5),
                      Value::from('\u{3bb}'), Value::from('\u{0}'), sym(""), Value::keyword(""), Value::from(Vec::<u8>::new().into_boxed_slice()), Value::from(false)];
     let mut out = atoms.clone();
+    // long strings with multi-byte characters at every offset around 32 / 48 / 64 / 128 (messages that quote the offending value must not cut inside a character)
+    for pad in [30usize, 31, 45, 46, 47, 48, 62, 63, 64, 126, 127, 255] { for ch in ["\u{e9}", "\u{20ac}", "\u{1f600}"] { out.push(Value::from(format!("{}{}{}", "a".repeat(pad), ch.repeat(3), "z".repeat(40)))); } }
+    out.push(Value::symbol(format!("{}\u{e9}\u{e9}", "s".repeat(47)))); out.push(Value::keyword(format!("{}\u{20ac}", "k".repeat(47))));
     out.push(Value::Vector(vec![Value::from(7)].into()));
     out.push(Value::Vector(vec![].into()));
     out.push(Value::append(vec![Value::from(1), Value::from(2)], Value::from(3)));
